@@ -119,6 +119,43 @@ theorem writeMsg_cases (H : FHash → Hdr → Hdr) (s : St) (prev : Hdr) (stop :
           · left; simp only [writeMsg, hl, hh, hn, ha, ne_eq, not_true_eq_false, not_false_eq_true, ↓reduceIte]
     · left; simp only [writeMsg, hl, hp, ne_eq, not_false_eq_true, ↓reduceIte]
 
+/-- `writeMsg` either fails and leaves the state alone, or succeeds as described -/
+theorem writeMsg_cases' (H : FHash → Hdr → Hdr) (s : St) (prev : Hdr) (stop : Blk) (hashes : List FHash) :
+    (∃ o, writeMsg H s prev stop hashes = (s, o) ∧ ∀ l e, o ≠ .ok l e) ∨
+    ∃ e, s.fstore.getLast? = some prev ∧ hashes.length ≠ 0 ∧
+      writeMsg H s prev stop hashes =
+        ({ s with fstore := s.fstore ++ chainFrom H prev hashes,
+                  fblk := s.fblk ++ (s.blocks.drop (e + 1 - hashes.length)).take hashes.length,
+                  ntf := s.ntf ++ connNtfs (e + 1 - hashes.length)
+                           ((s.blocks.drop (e + 1 - hashes.length)).take hashes.length) },
+         .ok (((chainFrom H prev hashes).getLast?).getD prev) e) := by
+  cases hl : s.fstore.getLast? with
+  | none => left; exact ⟨.errTip, by simp only [writeMsg, hl], fun _ _ h => by cases h⟩
+  | some tip =>
+    by_cases hp : tip = prev
+    · subst hp
+      cases hh : heightOf s.blocks stop with
+      | none =>
+        left
+        exact ⟨.errAnc, by simp only [writeMsg, hl, hh, ne_eq, not_true_eq_false, ↓reduceIte],
+          fun _ _ h => by cases h⟩
+      | some e =>
+        by_cases hn : hashes.length = 0 ∨ e + 1 < hashes.length
+        · left
+          exact ⟨.errAnc, by simp only [writeMsg, hl, hh, hn, ne_eq, not_true_eq_false, ↓reduceIte],
+            fun _ _ h => by cases h⟩
+        · by_cases ha : e + 1 - hashes.length = s.fstore.length
+          · right
+            refine ⟨e, rfl, by omega, ?_⟩
+            simp only [writeMsg, hl, hh, hn, ha, ne_eq, not_true_eq_false, ↓reduceIte]
+          · left
+            exact ⟨.misaligned,
+              by simp only [writeMsg, hl, hh, hn, ha, ne_eq, not_true_eq_false, not_false_eq_true, ↓reduceIte],
+              fun _ _ h => by cases h⟩
+    · left
+      exact ⟨.errPrev, by simp only [writeMsg, hl, hp, ne_eq, not_false_eq_true, ↓reduceIte],
+        fun _ _ h => by cases h⟩
+
 /-- `writeMsg` keeps the invariant -/
 theorem inv_writeMsg (H : FHash → Hdr → Hdr) (s : St) (prev : Hdr) (stop : Blk) (hashes : List FHash)
     (hi : Inv H s) : Inv H (writeMsg H s prev stop hashes).1 := by
@@ -346,6 +383,210 @@ theorem inv_tipRound (H : FHash → Hdr → Hdr) (s : St) (net : Net) (hi : Inv 
   · rw [h]; exact hi2
   · rw [h]; exact inv_commitPick H s2 net.pick hs2 hi2
 
+/-! ### the checkpointed path -/
+
+/-- the filter store grew by appending hash chains of batches, each started at the then-current tip -/
+inductive Grows (H : FHash → Hdr → Hdr) : List Hdr → List Hdr → Prop
+  | refl (l : List Hdr) : Grows H l l
+  | step {l m : List Hdr} (p : Hdr) (hs : List FHash) :
+      Grows H l m → m.getLast? = some p → Grows H l (m ++ chainFrom H p hs)
+
+theorem Grows.trans {H : FHash → Hdr → Hdr} {a b c : List Hdr} (h1 : Grows H a b) (h2 : Grows H b c) :
+    Grows H a c := by
+  induction h2 with
+  | refl => exact h1
+  | step p hs _ hl ih => exact Grows.step p hs ih hl
+
+theorem grows_writeMsg (H : FHash → Hdr → Hdr) (s : St) (prev : Hdr) (stop : Blk) (hashes : List FHash) :
+    Grows H s.fstore (writeMsg H s prev stop hashes).1.fstore := by
+  rcases writeMsg_fstore H s prev stop hashes with h | ⟨h1, h2⟩
+  · rw [h]; exact Grows.refl _
+  · rw [h2]; exact Grows.step prev hashes (Grows.refl _) h1
+
+theorem ban_frame (s : St) (ps : List Peer) (r : Nat) :
+    (ban s ps r).fstore = s.fstore ∧ (ban s ps r).fblk = s.fblk ∧ (ban s ps r).blocks = s.blocks :=
+  ⟨rfl, rfl, rfl⟩
+
+theorem rcConflict_frame (interval : Nat) (s1 : St) (net : Net) (cp2 : List (Peer × List Hdr)) (start n : Nat) :
+    (rcConflict interval s1 net cp2 start n).1.fstore = s1.fstore ∧
+    (rcConflict interval s1 net cp2 start n).1.fblk = s1.fblk ∧
+    (rcConflict interval s1 net cp2 start n).1.blocks = s1.blocks := by
+  unfold rcConflict
+  simp only
+  by_cases hb : (!baselineGo 0 (gather s1 net n)) = true
+  · simp only [hb, ↓reduceIte, and_self]
+  · simp only [hb, Bool.false_eq_true, ↓reduceIte]
+    have hf := idxLoop_frame net start (List.range n) s1 (gather s1 net n)
+    generalize idxLoop net start (List.range n) s1 (gather s1 net n) = r at hf
+    obtain ⟨s2, e⟩ := r
+    cases e with
+    | error e => exact hf
+    | ok hs2 => exact hf
+
+theorem resolveConflict_frame (interval : Nat) (hard : Nat → Option Hdr) (s : St) (net : Net)
+    (cp : List (Peer × List Hdr)) :
+    (resolveConflict interval hard s net cp).1.fstore = s.fstore ∧
+    (resolveConflict interval hard s net cp).1.fblk = s.fblk ∧
+    (resolveConflict interval hard s net cp).1.blocks = s.blocks := by
+  unfold resolveConflict
+  simp only
+  by_cases h1 : (hardPass interval hard s cp).2.isEmpty = true
+  · simp only [h1, ↓reduceIte]; exact ⟨rfl, rfl, rfl⟩
+  · simp only [h1, Bool.false_eq_true, ↓reduceIte]
+    cases checkSanity interval (hardPass interval hard s cp).1.fstore (hardPass interval hard s cp).2 with
+    | none => exact ⟨rfl, rfl, rfl⟩
+    | some d =>
+      simp only
+      split
+      · exact ⟨rfl, rfl, rfl⟩
+      · have := rcConflict_frame interval (hardPass interval hard s cp).1 net
+          ((hardPass interval hard s cp).2.filter (fun pc => !(decide (pc.2.length < d))))
+          (d * interval) (batchLenFrom (hardPass interval hard s cp).1 (d * interval))
+        exact this
+
+theorem pickList_ok (cp : List (Peer × List Hdr)) (pick : Nat) (l : List Hdr)
+    (h : pickList cp pick = .ok l) : ∃ pc ∈ cp, pc.2 = l := by
+  unfold pickList at h
+  cases hg : cp[pick % cp.length]? with
+  | none => rw [hg] at h; cases h
+  | some pc =>
+    rw [hg] at h
+    simp only [RCOut.ok.injEq] at h
+    exact ⟨pc, List.mem_of_getElem? hg, h⟩
+
+theorem rcFinish_ok (interval pick before : Nat) (cp2 : List (Peer × List Hdr)) (s2 : St)
+    (hs2 : List (Peer × Msg)) (l : List Hdr)
+    (h : (rcFinish interval pick before cp2 s2 hs2).2 = .ok l) : ∃ pc ∈ cp2, pc.2 = l := by
+  unfold rcFinish at h
+  simp only at h
+  split at h
+  · obtain ⟨pc, hpc, e⟩ := pickList_ok _ _ _ h
+    exact ⟨pc, (List.mem_filter.mp (List.mem_filter.mp hpc).1).1, e⟩
+  · cases h
+
+theorem rcConflict_ok (interval : Nat) (s1 : St) (net : Net) (cp2 : List (Peer × List Hdr)) (start n : Nat)
+    (l : List Hdr) (h : (rcConflict interval s1 net cp2 start n).2 = .ok l) : ∃ pc ∈ cp2, pc.2 = l := by
+  unfold rcConflict at h
+  simp only at h
+  by_cases hb : (!baselineGo 0 (gather s1 net n)) = true
+  · simp only [hb, ↓reduceIte] at h; cases h
+  · simp only [hb, Bool.false_eq_true, ↓reduceIte] at h
+    generalize idxLoop net start (List.range n) s1 (gather s1 net n) = r at h
+    obtain ⟨s2, e⟩ := r
+    cases e with
+    | error e => cases h
+    | ok hs2 => exact rcFinish_ok _ _ _ _ _ _ _ h
+
+/-- the list `resolveConflict` agrees on is one of the lists that survived the hard-coded-checkpoint pass -/
+theorem resolveConflict_ok (interval : Nat) (hard : Nat → Option Hdr) (s : St) (net : Net)
+    (cp : List (Peer × List Hdr)) (l : List Hdr)
+    (h : (resolveConflict interval hard s net cp).2 = .ok l) :
+    ∃ pc ∈ (hardPass interval hard s cp).2, pc.2 = l := by
+  unfold resolveConflict at h
+  simp only at h
+  by_cases h1 : (hardPass interval hard s cp).2.isEmpty = true
+  · simp only [h1, ↓reduceIte] at h; cases h
+  · simp only [h1, Bool.false_eq_true, ↓reduceIte] at h
+    cases hc : checkSanity interval (hardPass interval hard s cp).1.fstore (hardPass interval hard s cp).2 with
+    | none => rw [hc] at h; exact pickList_ok _ _ _ h
+    | some d =>
+      rw [hc] at h
+      simp only at h
+      split at h
+      · cases h
+      · obtain ⟨pc, hpc, e⟩ := rcConflict_ok _ _ _ _ _ _ _ h
+        exact ⟨pc, (List.mem_filter.mp hpc).1, e⟩
+
+/-- what the checkpointed loop maintains, relative to the state `s0` it started from -/
+structure CpOK (H : FHash → Hdr → Hdr) (s0 : St) (c : CpLoop) : Prop where
+  inv : Inv H c.st
+  gr  : Grows H s0.fstore c.st.fstore
+  bl  : c.st.blocks = s0.blocks
+
+theorem cpInner_ok (H : FHash → Hdr → Hdr) (interval ncps arr : Nat) (s0 : St) :
+    ∀ (fuel : Nat) (c : CpLoop), CpOK H s0 c → CpOK H s0 (cpInner H interval ncps arr fuel c) := by
+  intro fuel
+  induction fuel with
+  | zero => intro c h; exact h
+  | succ fuel ih =>
+    intro c h
+    unfold cpInner
+    cases c.cache.find? (fun e => e.1 == c.curInt) with
+    | none => exact h
+    | some e =>
+      simp only
+      cases c.st.blocks[(min (e.1 + perQuery) ncps) * interval]? with
+      | none => exact ⟨h.inv, h.gr, h.bl⟩
+      | some stopB =>
+        simp only
+        have a := inv_writeMsg H c.st (rebase c e arr).1 stopB (rebase c e arr).2 h.inv
+        have b := grows_writeMsg H c.st (rebase c e arr).1 stopB (rebase c e arr).2
+        have d := writeMsg_blocks H c.st (rebase c e arr).1 stopB (rebase c e arr).2
+        generalize writeMsg H c.st (rebase c e arr).1 stopB (rebase c e arr).2 = r at a b d
+        obtain ⟨st', o⟩ := r
+        have ok' : ∀ c' : CpLoop, c'.st = st' → CpOK H s0 c' := by
+          intro c' hc
+          exact ⟨by rw [hc]; exact a, by rw [hc]; exact h.gr.trans b, by rw [hc]; exact d.trans h.bl⟩
+        cases o with
+        | ok last e' => exact ih _ (ok' _ rfl)
+        | errTip => exact ok' _ rfl
+        | errPrev => exact ok' _ rfl
+        | errAnc => exact ok' _ rfl
+        | misaligned => exact ok' _ rfl
+
+theorem cpTake_ok (H : FHash → Hdr → Hdr) (interval ncps : Nat) (s0 : St) (c : CpLoop) (ev : CpEv)
+    (h : CpOK H s0 c) : CpOK H s0 (cpTake H interval ncps c ev) := by
+  unfold cpTake
+  simp only
+  split
+  · exact h
+  · have h1 : CpOK H s0 { c with cache := (ev.k, ev.prev, ev.hashes) :: c.cache.filter (fun x => x.1 != ev.k) } :=
+      ⟨h.inv, h.gr, h.bl⟩
+    have h2 := cpInner_ok H interval ncps (ev.k * interval + 1) s0
+      (((ev.k, ev.prev, ev.hashes) :: c.cache.filter (fun x => x.1 != ev.k)).length + 1) _ h1
+    split
+    · exact h2
+    · split
+      · exact ⟨h2.inv, h2.gr, h2.bl⟩
+      · exact h2
+
+theorem cpEvents_ok (H : FHash → Hdr → Hdr) (interval : Nat) (genesis : Hdr) (cps : List Hdr) (startInt : Nat)
+    (s0 : St) : ∀ (evs : List CpEv) (c : CpLoop), CpOK H s0 c →
+      CpOK H s0 (cpEvents H interval genesis cps startInt evs c) := by
+  intro evs
+  induction evs with
+  | nil => intro c h; exact h
+  | cons ev evs ih =>
+    intro c h
+    unfold cpEvents
+    cases handleResp H genesis cps startInt ev with
+    | none => exact ih c h
+    | some b =>
+      cases b with
+      | false => exact ih _ ⟨inv_of_eq H c.st _ rfl rfl rfl h.inv, h.gr, h.bl⟩
+      | true =>
+        simp only
+        split
+        · exact ih c h
+        · exact ih _ (cpTake_ok H interval cps.length s0 c ev h)
+
+theorem cpRound_ok (H : FHash → Hdr → Hdr) (interval : Nat) (s : St) (cps : List Hdr) (evs : List CpEv)
+    (hi : Inv H s) :
+    Inv H (cpRound H interval s cps evs).1 ∧ Grows H s.fstore (cpRound H interval s cps evs).1.fstore := by
+  unfold cpRound
+  cases s.fstore.getLast? with
+  | none => exact ⟨hi, Grows.refl _⟩
+  | some cur =>
+    simp only
+    split
+    · exact ⟨hi, Grows.refl _⟩
+    · split
+      · exact ⟨hi, Grows.refl _⟩
+      · have := cpEvents_ok H interval ((s.fstore.head?).getD 0) cps ((s.fstore.length - 1) / interval) s evs
+          { st := s, cur := cur, curH := s.fstore.length - 1, curInt := (s.fstore.length - 1) / interval,
+            initial := cur, cache := [] } ⟨hi, Grows.refl _, rfl⟩
+        exact ⟨this.inv, this.gr⟩
+
 theorem inv_step (H : FHash → Hdr → Hdr) (s : St) (op : Op) (hi : Inv H s) : Inv H (step H true s op).1 := by
   cases op with
   | ext ids =>
@@ -353,6 +594,10 @@ theorem inv_step (H : FHash → Hdr → Hdr) (s : St) (op : Op) (hi : Inv H s) :
   | rb h => exact (inv_rollbackLoop H h s.blocks.length s hi (by omega)).1
   | wr prev stop hashes => exact inv_writeMsg H s prev stop hashes hi
   | tip net => exact inv_tipRound H s net hi
+  | resolve interval hard net cp =>
+    obtain ⟨a, b, c⟩ := resolveConflict_frame interval hard s net cp
+    exact inv_of_eq H s _ a b c hi
+  | cp interval cps evs => exact (cpRound_ok H interval s cps evs hi).1
 
 theorem inv_run (H : FHash → Hdr → Hdr) : ∀ (ops : List Op) (s : St), Inv H s → Inv H (run H true s ops) := by
   intro ops
